@@ -1,7 +1,7 @@
 (* Properties/C19.v — converted maps are well-formed inputs of their target mode (the modelled
    parts; pattern choice and slider geometry are exercised by the direct oracle only — partial). *)
 From Coq Require Import ZArith List Bool Floats.
-From V Require Import F64 F32 Decode DecodeProofs ManiaCols ManiaColsProofs.
+From V Require Import Tables F64 F32 Decode DecodeProofs ManiaCols ManiaColsProofs.
 Import ListNotations.
 Open Scope Z_scope.
 
@@ -57,3 +57,10 @@ Print Assumptions C19_effect_points_strict.
 Theorem C19_column_inverse_14_refuted : column (column_to_pos 7 14) (of_Z 14) = 6.
 Proof. exact column_inverse_14_refuted. Qed.
 Print Assumptions C19_column_inverse_14_refuted.
+
+(* time order of mania maps / converts: `sort::osu_legacy` only re-orders simultaneous objects of a
+   slice that was ordered by start time immediately before (its port reads the pivot by index, so on
+   unordered input it would NOT sort); the call sites are re-read from the source on every run *)
+Theorem C19_sort_facts_now : forallb snd Tables.sort_facts = true /\ (3 <= length Tables.sort_facts)%nat.
+Proof. exact tables_sort_facts. Qed.
+Print Assumptions C19_sort_facts_now.
